@@ -165,7 +165,7 @@ var commandFns = map[string]bool{"io.popen": true, "os.execute": true}
 var poolNames = []string{
 	"nil", "true", "i0", "i1", "i-1", "maxint", "minint", "f0.5", "f2^53", "inf", "nan",
 	"s-empty", "s-a", "s-pct", "s-300", "s-num", "s-nul", "dump-trunc", "dump-flip",
-	"t-empty", "t-seq", "t-raising", "fn", "co-dead", "self", "file-open", "file-closed",
+	"t-empty", "t-seq", "t-raising", "fn", "co-dead", "self", "file-open", "file-closed", "ud-ctx",
 }
 
 // Lua snippets that build the pool values that cannot be made from Go.
@@ -183,6 +183,7 @@ return setmetatable({}, raising)`,
 fo:write("line1\nline2\n12 0x10 zz\n")
 fo:seek("set")
 return fo`,
+	"ud-ctx":      `return runtime.context()`,
 	"file-closed": `local fc = io.open("f-closed", "w") fc:close() return fc`,
 	"dump":        `return string.dump(function(a, b) local t = {a, "k", 2.5} return t[1] + #b end)`,
 }
